@@ -873,11 +873,16 @@ class FortranCodegen(Stringifier):
             triplets.append(self.visit(o.mask, **kwargs))
         # Generate full header
         name = f"{o.name}: " if o.name is not None else ""
-        header = self.format_line(name, "FORALL(", ", ".join(triplets), ")")
         # Generate a single-line FORALL statement with one assignment
         if o.inline:
-            assignment = self.visit(o.body[0], **kwargs).lstrip()
-            return f"{header} {assignment}"
+            d = self.depth
+            self.depth = 0
+            assignment = self.visit(o.body[0], **kwargs)
+            self.depth = d
+            # Undo the line wrapping, so that header and assignment are wrapped as one statement
+            assignment = ''.join(assignment.strip().split('&\n&'))
+            return self.format_line(name, "FORALL(", ", ".join(triplets), ") ", assignment)
+        header = self.format_line(name, "FORALL(", ", ".join(triplets), ")")
         # Generate a multi-line FORALL construct
         name = f" {o.name}" if o.name is not None else ""
         footer = self.format_line('END FORALL', name)
